@@ -134,6 +134,10 @@ class World(object):
                 os.chmod(p, nd.get('m', 0o644))
             elif t == 'l':
                 os.symlink(subst(nd['to'], R), p)
+            elif t == 'h':
+                # another name (hard link) of an earlier node
+                os.link(self.abs(subst(nd['to'], R)) if not nd['to'].startswith('/')
+                        else nd['to'], p)
             elif t == 'p':
                 os.mkfifo(p, nd.get('m', 0o644))
             elif t == 's':
